@@ -208,6 +208,8 @@ def gen_lifecycle(rng, out, i):
     fb = max(frame_bytes(d["w"], d["h"], d["type"]) for d in streams)
     lines += ["cap %d" % (int(fb * rng.choice([1.5, 2.5, 4.0, 8.0])) + 3), "fill 0", "streams 2", "noinit 1"]
     CFGS = ["0 0 -1 -1", "0 0 1 1", "1 1 -1 -1", "-1 -1 0 0", "0 1 1 0", "1 0 -1 -1", "-1 -1 -1 -1"]
+    # device 2 of either kind is enumerated but cannot be opened (unplugged / busy): configure marks the stream invalid
+    BADCFGS = ["2 0 -1 -1", "0 2 -1 -1", "2 2 1 1", "0 0 2 1", "1 1 0 2"]
     prog = []
     cur = None
     running = False
@@ -234,7 +236,7 @@ def gen_lifecycle(rng, out, i):
             if running and cur is not None:
                 c = cur      # well-formedness: while running only the SAME devices are re-configured
             else:
-                c = rng.choice(CFGS)
+                c = rng.choice(CFGS) if rng.random() < 0.8 else rng.choice(BADCFGS)
             prog += ["cfg"] + c.split()
             if not running:
                 cur = c
@@ -281,7 +283,7 @@ def gen_lifecycle(rng, out, i):
     return "\n".join(lines) + "\n"
 
 
-FAMILIES = {"C08": ["lifecycle"], "C04": ["complete"], "C05": ["complete", "monitor"], "C06": ["monitor"], "C07": ["abort"], "C09": ["fault"], "C10": ["avg"]}
+FAMILIES = {"C08": ["lifecycle"], "C04": ["complete"], "C05": ["complete", "monitor", "avg"], "C06": ["monitor"], "C07": ["abort"], "C09": ["fault"], "C10": ["avg"]}
 NRUNS = {"quick": 600, "thorough": 6000}
 
 
